@@ -97,6 +97,12 @@ fn copy_dir(src: &Path, dst: &Path) -> std::io::Result<()> {
 enum Inj {
     Storage(Vec<StorageFault>),
     Vfs(VfsFault),
+    /// the storage is down for a while: the same request fails at the same storage call this many
+    /// times in a row (a retrying client), then the storage is healthy again. Whatever a server
+    /// counts, caches or reserves per attempt must be given back each time.
+    Storm(StorageFault, u32),
+    /// SQLITE_INTERRUPT at the n-th progress callback of the request (a point inside a statement)
+    Interrupt(u64),
 }
 
 /// Run request `op` on `w` with the injection and judge the outcome. Returns whether a fault fired.
@@ -110,6 +116,23 @@ fn faulted_request(w: &mut World, op: &Op, inj: &Inj, out: &mut RunOut) -> bool 
         _ => Chunking::Whole,
     };
     let http = w.entry == Entry::Http;
+    if let Inj::Storm(f, n) = inj {
+        for k in 0..n.saturating_sub(1) {
+            w.next_faults = vec![*f];
+            let r = w.issue(&req, &ch, out);
+            let fired = !w.inst.ctl.fired().is_empty();
+            let _ = w.inst.ctl.take_log();
+            if !fired {
+                return false;
+            }
+            if !matches!(r, Resp::Error(_)) {
+                out.violations.push(viol(&["C05"], "fault.success_despite_failure", format!("{} answered {} although storage call {:?} failed (attempt {} of a series)", req.short(), r.short(), f, k + 1)));
+                return true;
+            }
+        }
+        out.bump("fault.storage_down_for_a_series_of_attempts");
+        return faulted_request(w, op, &Inj::Storage(vec![*f]), out);
+    }
     let before = w.proj.clone();
     let model_before = w.model.clone();
     let cid = req.client();
@@ -120,9 +143,18 @@ fn faulted_request(w: &mut World, op: &Op, inj: &Inj, out: &mut RunOut) -> bool 
             vfs::begin_window(None);
         }
         Inj::Vfs(f) => vfs::begin_window(Some(*f)),
+        Inj::Interrupt(n) => {
+            vfs::begin_window(None);
+            vfs::begin_interrupt_window(Some(*n));
+        }
+        Inj::Storm(..) => unreachable!(),
     }
     let resp = w.issue(&req, &ch, out);
-    let vfired = vfs::end_window();
+    let (_, interrupts) = vfs::end_interrupt_window();
+    let mut vfired = vfs::end_window();
+    if interrupts > 0 {
+        vfired.push(format!("SQLITE_INTERRUPT at progress callback {:?}", inj));
+    }
     let sfired = w.inst.ctl.fired();
     let log = w.inst.ctl.take_log();
     let t2 = sched::now_us();
@@ -131,14 +163,17 @@ fn faulted_request(w: &mut World, op: &Op, inj: &Inj, out: &mut RunOut) -> bool 
         return false;
     }
     let what = match inj {
-        Inj::Storage(_) => format!("storage call {:?}", sfired),
-        Inj::Vfs(_) => format!("vfs {:?}", vfired),
+        Inj::Storage(_) | Inj::Storm(..) => format!("storage call {:?}", sfired),
+        Inj::Vfs(_) | Inj::Interrupt(_) => format!("vfs {:?}", vfired),
     };
     for (_, call, after) in &sfired {
         out.bump(&format!("fault.storage.{:?}.{}", call, if *after { "after_effect" } else { "before_effect" }));
     }
     if let Inj::Vfs(f) = inj {
         out.bump(&format!("fault.vfs.{:?}", f.kind));
+    }
+    if let Inj::Interrupt(_) = inj {
+        out.bump("fault.sqlite_interrupt_inside_a_statement");
     }
     out.bump(&format!("faulted.resp.{}", resp.class()));
     if let Resp::Panic(p) = &resp {
@@ -222,8 +257,8 @@ fn faulted_request(w: &mut World, op: &Op, inj: &Inj, out: &mut RunOut) -> bool 
     }
     // state changed: must be exactly "after"
     let may_be_after = match inj {
-        Inj::Storage(_) => commit_took_effect,
-        Inj::Vfs(_) => true,
+        Inj::Storage(_) | Inj::Storm(..) => commit_took_effect,
+        Inj::Vfs(_) | Inj::Interrupt(_) => true,
     };
     let mut cand = model_before.clone();
     let applied_ok = match &req {
@@ -346,9 +381,11 @@ fn exec_wrapped(plan: &FaultPlan) -> RunOut {
                 let _fc = if plan.foreign_conn { rusqlite::Connection::open(dry_dir.join(DB_FILE)).ok() } else { None };
                 if let Some(req) = ops::concretise(plan.seed, &w.model, plan.n_clients, op) {
                     vfs::begin_window(None);
+                    vfs::begin_interrupt_window(None);
                     let mut side = RunOut::default();
                     let _ = w.issue(&req, &Chunking::Whole, &mut side);
                     let counts = vfs::window_counts();
+                    let (progress_calls, _) = vfs::end_interrupt_window();
                     vfs::end_window();
                     let log = w.inst.ctl.take_log();
                     let ncalls = log.iter().filter(|(c, _)| *c != Call::Drop).count() as u32;
@@ -358,6 +395,11 @@ fn exec_wrapped(plan: &FaultPlan) -> RunOut {
                                 for after in [false, true] {
                                     injections.push(Inj::Storage(vec![StorageFault { index: i, after }]));
                                 }
+                            }
+                            if ncalls >= 1 {
+                                // the first storage call of the request (the transaction begin) fails many times in a row
+                                let n = *sel.pick(&[3u32, 70, 140]);
+                                injections.push(Inj::Storm(StorageFault { index: 0, after: false }, n));
                             }
                             for _ in 0..plan.doubles {
                                 if ncalls >= 2 {
@@ -373,6 +415,14 @@ fn exec_wrapped(plan: &FaultPlan) -> RunOut {
                             }
                         }
                         FaultLayer::Vfs => {
+                            // statement-level interrupts: every progress callback of the request, sampled down to 24
+                            let stride = (progress_calls / 24).max(1);
+                            let off = sel.below(stride);
+                            let mut k = off;
+                            while k < progress_calls {
+                                injections.push(Inj::Interrupt(k));
+                                k += stride;
+                            }
                             for kind in vfs::ALL_FAULTS {
                                 let n = counts.get(&(kind.applies_to() as u8)).copied().unwrap_or(0);
                                 for nth in 0..n {
